@@ -255,7 +255,7 @@ func literalArg(w *stepWalker, fd *ast.FuncDecl, pkg, fn, firstArg string, idx i
 	return found[0], nil
 }
 
-func leanStr(s string) string {
+func leanStr27(s string) string {
 	return `"` + strings.NewReplacer(`\`, `\\`, `"`, `\"`).Replace(s) + `"`
 }
 
@@ -268,9 +268,9 @@ func leanSteps(name string, steps []fsStep) string {
 		}
 		args := make([]string, len(s.args))
 		for k, a := range s.args {
-			args[k] = leanStr(a)
+			args[k] = leanStr27(a)
 		}
-		fmt.Fprintf(&sb, "\n  (%s, %s, [%s])", leanStr(s.point), leanStr(s.call), strings.Join(args, ", "))
+		fmt.Fprintf(&sb, "\n  (%s, %s, [%s])", leanStr27(s.point), leanStr27(s.call), strings.Join(args, ", "))
 	}
 	sb.WriteString("]\n")
 	return sb.String()
@@ -384,7 +384,7 @@ func extractInstallSteps(repoDir, outDir string) error {
 		if i > 0 {
 			sb.WriteString(",")
 		}
-		fmt.Fprintf(&sb, "\n  (%s, %s)", leanStr(k), leanStr(allPaths[k]))
+		fmt.Fprintf(&sb, "\n  (%s, %s)", leanStr27(k), leanStr27(allPaths[k]))
 	}
 	sb.WriteString("]\n")
 	// ListInstalledPlugins literals
@@ -402,9 +402,9 @@ func extractInstallSteps(repoDir, outDir string) error {
 		return err
 	}
 	sb.WriteString("/-- ListInstalledPlugins: `strings.TrimPrefix(dir.Name(), …)` -/\n")
-	fmt.Fprintf(&sb, "def listTrimPrefix : String := %s\n", leanStr(trim))
+	fmt.Fprintf(&sb, "def listTrimPrefix : String := %s\n", leanStr27(trim))
 	sb.WriteString("/-- ListInstalledPlugins: entries with `strings.HasPrefix(version.Name(), …)` are skipped -/\n")
-	fmt.Fprintf(&sb, "def listSkipPrefix : String := %s\n", leanStr(skip))
+	fmt.Fprintf(&sb, "def listSkipPrefix : String := %s\n", leanStr27(skip))
 	sb.WriteString("end Octo.Gen.InstallSteps\n")
 	if err := os.MkdirAll(outDir, 0o755); err != nil {
 		return err
